@@ -527,6 +527,12 @@ void run_case(const uint64_t seed, const long id, const rfunctions_t& registered
     {
         d(0) = (g0(0) > 0 ? -1.0 : 1.0) * std::ldexp(1.0, static_cast<int>(rng.range(-4, 6))); // power-of-two step
     }
+    if (dkind == 11 && rng.range(0, 3) == 0)
+    {
+        // a non-finite component: dg0 is NaN (refused) or -inf (accepted as descent, every trial point is invalid)
+        static const double BAD[] = {std::nan(""), HUGE_VAL, -HUGE_VAL};
+        d(rng.range(0, n - 1)) = BAD[rng.range(0, 2)];
+    }
     const auto t0  = t0_of(rng);
     const auto cfg = make_cfg(rng);
     const auto ls  = make_lsearch(cfg);
@@ -613,10 +619,21 @@ void run_case(const uint64_t seed, const long id, const rfunctions_t& registered
 
     // "on convex quadratics all five succeed and satisfy their advertised conditions" is a floating-point success claim
     // that depends on the budget; it is demanded on: a valid origin, t0 in [1e-3, 1e3] or non-finite, default method
-    // parameters, max_iterations >= 100 (default 128), c1 <= 0.99, finite evaluations. Outside: counted only.
+    // parameters, max_iterations >= 100 (default 128), c1 <= 0.99, finite evaluations, 1e-10 <= t* <= 1e10. Outside: counted only.
     const auto t0dom    = !std::isfinite(t0) || (t0 >= 1e-3 && t0 <= 1e3);
     const auto quadcase = convex_quadratic && valid0 && std::isfinite(dg0) && !any_invalid;
-    const auto demanded = quadcase && t0dom && !cfg.custom && cfg.maxit >= 100 && cfg.c1 <= 0.99;
+    // ... and the exact minimiser along d, t* = -dg0 / d'Ad, must lie well inside [stpmin, stpmax] = [2e-15, 4.5e14]
+    // (the searches are confined to that interval: More-Thuente legitimately stops at stpmax otherwise)
+    auto tstar = std::nan("");
+    if (quadcase)
+    {
+        vector_t x1(n), g1(n);
+        x1.vector() = x0.vector() + d.vector();
+        fun->vgrad(x1, g1);
+        tstar = -dg0 / (g1.dot(d) - dg0);
+    }
+    const auto demanded = quadcase && t0dom && !cfg.custom && cfg.maxit >= 100 && cfg.c1 <= 0.99 &&
+                          std::isfinite(tstar) && tstar >= 1e-10 && tstar <= 1e10;
     if (demanded) { ++st.quad_runs; }
     if (quadcase && !demanded)
     {
@@ -660,6 +677,17 @@ void run_case(const uint64_t seed, const long id, const rfunctions_t& registered
     st.by_alg_ok[ALGS[cfg.alg]] += 1;
     if (demanded) { ++st.quad_ok; }
 
+    // candidate finding (notes/C07.md, theorem C07_invalid_success_only_after_exhausted_shrink): the `*0.3` loop used up
+    // max_iterations on invalid trial points and the search accepted the stale invalid state (t may even be 0)
+    if (exhausted && !state.valid())
+    {
+        ++st.corner;
+        std::printf("CAND %ld %s kind=stale-invalid-state alg=%s t=%s f(state)=%s state.valid=0 valid0=%d maxit=%d probes=%zu\n",
+                    id, fname.c_str(), ALGS[cfg.alg], vh::hexf(step).c_str(), vh::hexf(state.fx()).c_str(),
+                    valid0 ? 1 : 0, cfg.maxit, log.size());
+        return;
+    }
+
     // (a) finite positive step
     if (!std::isfinite(step)) { fail("step", "non-finite step " + vh::hexf(step)); }
     if (!(step > 0.0)) { fail("step", "non-positive step " + vh::hexf(step)); }
@@ -675,13 +703,6 @@ void run_case(const uint64_t seed, const long id, const rfunctions_t& registered
         const auto detail = "t=" + vh::hexf(step) + " f(state)=" + vh::hexf(state.fx()) + " f(x0+t*d)=" +
                             vh::hexf(ft) + " state.valid=" + std::to_string(state.valid() ? 1 : 0) + " maxit=" +
                             std::to_string(cfg.maxit) + " probes=" + std::to_string(log.size());
-        if (exhausted && !state.valid())
-        {
-            ++st.corner;
-            std::printf("CAND %ld %s kind=stale-invalid-state alg=%s %s\n", id, fname.c_str(), ALGS[cfg.alg],
-                        detail.c_str());
-            return;
-        }
         fail("state", "returned state is not the (valid) evaluation at x0+t*d: " + detail);
         return;
     }
@@ -756,7 +777,7 @@ int main(int argc, char** argv)
     const std::string tier   = argc > 1 ? argv[1] : "quick";
     const long        only   = argc > 2 ? std::atol(argv[2]) : -1;
     const auto        seed   = vh::env_seed();
-    const long        ncases = tier == "thorough" ? 600000 : 40000;
+    const long        ncases = tier == "thorough" ? 1000000 : 100000;
 
     std::printf("CONST %s %s %s %s\n", vh::hexf(epsilon0<scalar_t>()).c_str(), vh::hexf(epsilon1<scalar_t>()).c_str(),
                 vh::hexf(lsearchk_t::stpmin()).c_str(), vh::hexf(lsearchk_t::stpmax()).c_str());
